@@ -8,6 +8,7 @@ import DryocVerif.Properties.C05
 import DryocVerif.Proofs.GenCurve
 import DryocVerif.Proofs.KeyFormsExtra
 import DryocVerif.Proofs.KeyFormsCode
+import DryocVerif.Proofs.CurveEdwards
 import DryocVerif.Proofs.Blake2bMain
 import DryocVerif.Proofs.SignVectors
 import DryocVerif.Model.KeyForms
@@ -23,10 +24,16 @@ C13 — deterministic key pairs and the Ed25519 → Curve25519 conversion
   pair was derived from (so the converted pair is a pair), and equals libsodium's function;
 * `converted_pair_consistent`: the converted public key is the X25519 public key of the
   converted secret key, *given* that the birational map commutes with scalar multiplication
-  (a property of the curve arithmetic, stated as a hypothesis and checked on an instance) —
-  the hypothesis is essentially the conclusion, see its docstring;
+  (`MapCommutes`; the hypothesis is essentially the conclusion, see its docstring).  `MapCommutes` is NOT an
+  independent assumption: it follows from `C05.BaseEdwardsOK` (`mapCommutes_of_base`,
+  `converted_pair_consistent_of_base`);
 * `converted_pair_consistent_code`: the same consistency in the CODE's shape (both sides go through
-  the same Edwards multiple Q = [a mod L]B), with NO homomorphism hypothesis — field algebra only;
+  the same Edwards multiple Q = [a mod L]B), with NO homomorphism hypothesis — field algebra only; its two
+  hypotheses (Q decompresses, Z ≢ 0) hold for EVERY seed (`converted_pair_consistent_code_all`), because every
+  multiple of B satisfies the curve equation with Z ≢ 0 and such points decompress
+  (`scalarMul_B_onCurve`, `scalarMul_B_Z`, `scalarMul_B_decodes`: closure of the twisted Edwards equation under
+  the unified addition law, completeness from "d is not a square", correctness of the square-root step —
+  `Proofs/CurveEdwards.lean`, algebra in `ZMod p`, no group law);
 * what IS proved about the public-key conversion: it agrees with libsodium's wherever libsodium
   accepts (`pkToCurve_of_spec`), fails exactly when the key does not decompress
   (`pkToCurve_err_iff`), never panics;
@@ -39,16 +46,32 @@ C13 — deterministic key pairs and the Ed25519 → Curve25519 conversion
 All statements about X25519 public keys (`scalarmultBase`) are about the model's ladder shape; they
 transfer to the Rust `crypto_scalarmult_curve25519_base` (Edwards table, scalar reduced mod L,
 `to_montgomery`) under the unproved curve fact `C05.BaseEdwardsOK`.
+
+CURVE FACTS THAT REMAIN ASSUMED in this file (no general proof; each evaluated in the kernel on instances).
+(1) `C05.BaseEdwardsOK` (itself a consequence of `C05.EdwardsLadderOK`): the Rust base-point multiplication
+(Edwards table, scalar mod L, `to_montgomery`) = X25519 on u = 9; witnesses: secret keys 0³², ff³² in C05, and
+through `MapCommutes` the clamped 0³², ff³² and the end-to-end seed 0³² at the end of this file.  It is the
+hypothesis of `mapCommutes_of_base` / `converted_pair_consistent_of_base`, and the one under which every
+`scalarmultBase` statement speaks about the Rust function.
+(2) the per-seed hypothesis `hL` of `seedKeypair_eq_rfc` (`[a mod L]B` and `[a]B` encode equally, i.e. `[L]B = O`);
+witness: the RFC 8032 TEST 1 seed.
+(3) the hypothesis of `pkToCurve_of_spec` (libsodium accepts the key, incl. its `[L]A` subgroup test); witness: the
+RFC 8032 TEST 1 public key.
+`MapCommutes` is no longer on this list (derived from (1)); that multiples of B are on the curve, have Z ≢ 0 and
+decompress is PROVED.  Theorems marked "definitional (documents the model)" are `rfl` unfoldings of a model
+definition: they record what the model says, they do not constrain the Rust.
 -/
 namespace DryocVerif.Properties.C13
 open DryocVerif DryocVerif.Model.Curve
 
 /-! ### `crypto_box_seed_keypair` -/
 
-/-- public key = base-point multiple of the secret key, whatever the primitives -/
+/-- public key = base-point multiple of the secret key, whatever the primitives.
+Definitional (documents the model): `rfl` unfolding of `boxSeedKeypair`. -/
 theorem boxSeedKeypair_pk (P : Prims) (seed : Bytes) :
     (boxSeedKeypair P seed).1 = scalarmultBase P (boxSeedKeypair P seed).2 := rfl
 
+/-- Definitional (documents the model): `rfl` unfolding of `boxSeedKeypair`. -/
 theorem boxSeedKeypair_sk (P : Prims) (seed : Bytes) :
     (boxSeedKeypair P seed).2 = (P.sha512 seed).take 32 := rfl
 
@@ -67,8 +90,40 @@ theorem boxSeedKeypair_sk_length (seed : Bytes) : (boxSeedKeypair specPrims seed
   rw [boxSeedKeypair_sk]
   simp only [specPrims, List.length_take, Proofs.Curve.sha512_length]; rfl
 
+open Model.KeyForms in
+/-- **`crypto_box_seed_keypair`, the code path** (`crypto_box_curve25519xsalsa20poly1305_seed_keypair_inplace`,
+counterpart of `kxSeed_code`): `crypto_hash_sha512(&mut hash, seed)`,
+`secret_key.copy_from_slice(&hash[0..32])`, `crypto_scalarmult_curve25519_base(public_key, secret_key)` with its
+`q.copy_from_slice(..)` — statement by statement in `Model.KeyForms.boxSeedKeypairInplace`, with the prior
+contents `pk0`, `sk0` of the two 32-byte buffers explicit.  Result: `Ok` (neither `copy_from_slice` can panic),
+secret = SHA-512(seed)[0..32], public = X25519 base(secret), whatever the buffers held before.
+UNLIKE `kxSeed_code` there is no dryoc hash code to go through: `crypto_hash_sha512` is three calls into the
+`sha2` crate (`Sha512::default`, `update`, `finalize_into_bytes`) with no `Result`; it is represented by the
+specification function `Spec.Sha512.sha512` (compared differentially in C-hash rows), not by a model of dryoc code.
+The public key is the model's ladder shape; for the Rust's Edwards-table shape see `boxSeed_code_edwards`. -/
+theorem boxSeed_code (pk0 sk0 seed : Bytes) (hpk : pk0.length = 32) (hsk : sk0.length = 32) :
+    boxSeedKeypairInplace specPrims pk0 sk0 seed =
+      .ok (Spec.X25519.x25519Base ((Spec.Sha512.sha512 seed).take 32), (Spec.Sha512.sha512 seed).take 32) := by
+  rw [Proofs.KeyFormsExtra.boxSeedKeypairInplace_spec pk0 sk0 seed hpk hsk, boxSeedKeypair_spec]
+
+open Model.KeyForms in
+/-- … and in the CODE's shape of the public key (`(ED25519_BASEPOINT_TABLE * (clamp(sk) mod L)).to_montgomery()`,
+`C05.scalarmultBaseEdwards`), under the curve hypothesis `C05.BaseEdwardsOK` -/
+theorem boxSeed_code_edwards (hB : C05.BaseEdwardsOK) (pk0 sk0 seed : Bytes)
+    (hpk : pk0.length = 32) (hsk : sk0.length = 32) :
+    boxSeedKeypairInplace specPrims pk0 sk0 seed =
+      .ok (C05.scalarmultBaseEdwards ((Spec.Sha512.sha512 seed).take 32), (Spec.Sha512.sha512 seed).take 32) := by
+  have hl : ((Spec.Sha512.sha512 seed).take 32).length = 32 := by
+    rw [List.length_take, Proofs.Curve.sha512_length]; rfl
+  rw [boxSeed_code pk0 sk0 seed hpk hsk, hB _ hl]
+
+/-- non-vacuity witness for `boxSeed_code`: dirty 32-byte buffers -/
+example : (List.replicate 32 (0xaa : UInt8)).length = 32 ∧ (List.replicate 32 (0x55 : UInt8)).length = 32 := by
+  decide
+
 /-! ### `crypto_kx_seed_keypair` -/
 
+/-- Definitional (documents the model): `rfl` unfolding of `kxSeedKeypair`. -/
 theorem kxSeedKeypair_pk (P : Prims) (seed : Bytes) :
     (kxSeedKeypair P seed).1 = scalarmultBase P (kxSeedKeypair P seed).2 := rfl
 
@@ -100,11 +155,13 @@ example : ([1, 2, 3] : Bytes).length + 128 < 2 ^ 64 := by decide
 def signScalar (H : Bytes → Bytes) (seed : Bytes) : Nat :=
   le (Model.Sign.clampHash (H seed)) % Spec.Ed25519.L
 
+/-- Definitional (documents the model): `rfl` unfolding of `Model.Sign.seedKeypair`. -/
 theorem sign_seedKeypair_pk (H : Bytes → Bytes) (seed : Bytes) :
     (Model.Sign.seedKeypair H seed).1 =
       Spec.Ed25519.encodePoint (Spec.Ed25519.scalarMul (signScalar H seed) Spec.Ed25519.B) := rfl
 
-/-- secret-key layout: seed ‖ public key -/
+/-- secret-key layout: seed ‖ public key.
+Definitional (documents the model): `rfl` unfolding of `Model.Sign.seedKeypair`. -/
 theorem sign_seedKeypair_layout (H : Bytes → Bytes) (seed : Bytes) :
     (Model.Sign.seedKeypair H seed).2 = seed ++ (Model.Sign.seedKeypair H seed).1 := rfl
 
@@ -127,12 +184,15 @@ theorem sign_seedKeypair_lengths (H : Bytes → Bytes) (seed : Bytes) (h : seed.
 
 /-! ### `crypto_sign_ed25519_sk_to_curve25519` -/
 
-/-- the converted secret key is the clamped first half of H(sk[0..32]) -/
+/-- the converted secret key is the clamped first half of H(sk[0..32]).
+Definitional (documents the model): `rfl` unfolding of `Model.Sign.skToCurve`. -/
 theorem skToCurve_unfold (H : Bytes → Bytes) (sk : Bytes) :
     Model.Sign.skToCurve H sk = clamp ((H (sk.take 32)).take 32) := rfl
 
 /-- The X25519 secret key obtained from an Ed25519 secret key is (modulo L) exactly the
-secret scalar of the Ed25519 key pair derived from the same seed `sk[0..32]`. -/
+secret scalar of the Ed25519 key pair derived from the same seed `sk[0..32]`.
+Definitional (documents the model): `rfl` — both sides unfold to `le (clampHash (H (sk.take 32))) % L`; the
+content is that the two model definitions were written with the same scalar (as the two Rust functions are). -/
 theorem sk_to_curve_is_sign_scalar (H : Bytes → Bytes) (sk : Bytes) :
     le (Model.Sign.skToCurve H sk) % Spec.Ed25519.L = signScalar H (sk.take 32) := rfl
 
@@ -178,8 +238,9 @@ theorem scalarmult_skToCurve (P : Prims) (H : Bytes → Bytes) (sk p : Bytes) :
 /-- the curve-arithmetic fact the conversion relies on, for one clamped scalar `s`:
 encoding `[s mod L]B`, decoding it leniently and applying the birational map
 u = (1+y)/(1−y) gives the Montgomery-ladder result for `s` on the base point 9.
-(It combines: decode ∘ encode = id on the curve, `[L]B = 0`, and the map being a group
-homomorphism — none of which is provable without the group law.) -/
+(It combines: decode ∘ encode keeps y on the curve — PROVED, `pkToCurve_compress` + `scalarMul_B_decodes` /
+`scalarMul_B_Z` —, `[L]B = 0`, and the map being a group homomorphism — the last two are not provable without the
+group law and are exactly `C05.BaseEdwardsOK`: `mapCommutes_of_base` derives `MapCommutes` from it.) -/
 def MapCommutes (P : Prims) (s : Bytes) : Prop :=
   Model.Sign.pkToCurve
       (Spec.Ed25519.encodePoint (Spec.Ed25519.scalarMul (le s % Spec.Ed25519.L) Spec.Ed25519.B)) =
@@ -196,7 +257,8 @@ curve25519 is a group homomorphism, so it commutes with scalar multiplication, a
 the bookkeeping of dryoc's code: both conversions start from the same hash of the same 32 bytes,
 the scalar of the signing key is that clamped value mod L, and the second clamp inside
 `scalarmult_base` is the identity.  The curve fact itself is evaluated on instances below and
-checked against the implementation by the differential tests.  Unconditional facts about
+checked against the implementation by the differential tests; it is a consequence of `C05.BaseEdwardsOK`
+(`mapCommutes_of_base`), so `converted_pair_consistent_of_base` states this theorem under that one hypothesis.  Unconditional facts about
 `pk_to_curve25519` are `pkToCurve_of_spec`, `pkToCurve_err_iff`, `pkToCurve_never_panics`. -/
 theorem converted_pair_consistent (P : Prims) (H : Bytes → Bytes) (seed : Bytes)
     (hseed : seed.length = 32) (hH : 32 ≤ (H seed).length)
@@ -245,8 +307,8 @@ In the Rust both conversions go through the SAME Edwards point Q = [a mod L]·B:
 `pk_to_curve(pk) = scalarmult_base(sk_to_curve(sk))` is field algebra:
 decompress ∘ compress keeps the affine y = Y/Z, and (1 + Y/Z)/(1 − Y/Z) = (Z + Y)/(Z − Y).
 
-Hypotheses, and why: `hdec` — the compressed point decompresses (that Q is on the curve is not
-proved here; without it the Rust returns `Err`); `hZ` — Q's projective `Z` is not `0 mod p`, so that
+Hypotheses, and why (BOTH hold for every seed: `converted_pair_consistent_code_all` below, which supersedes this
+form): `hdec` — the compressed point decompresses (without it the Rust returns `Err`); `hZ` — Q's projective `Z` is not `0 mod p`, so that
 `Z⁻¹ = Z^(p−2)` is an inverse (Fermat; the primality of p = 2^255 − 19 is proved by a Pratt
 certificate in `Proofs/FieldPrime.lean`).  For a point with `Z ≡ 0` both sides are meaningless
 (`Y/Z`).  NO `MapCommutes`, no group law.
@@ -277,6 +339,77 @@ theorem pkToCurve_compress (Q : Spec.Ed25519.Point)
 /-- the field prime p = 2^255 − 19 is prime (Pratt certificate, checked by kernel evaluation) -/
 theorem field_prime : Nat.Prime Spec.X25519.p := Proofs.FieldPrime.p_prime
 
+/-! #### every multiple of the base point is on the curve, has `Z ≢ 0`, and decompresses -/
+
+/-- the extended twisted Edwards equations on the `Nat` coordinates (every field operation reduces mod p):
+`Y² − X² = Z² + d·T²` and `X·Y = Z·T`; decidable -/
+abbrev OnCurve (P : Spec.Ed25519.Point) : Prop := Proofs.CurveEdwards.OnCurve P
+
+/-- **Every multiple of the base point satisfies the curve equations**, for every `k` (closure of the equations
+under the unified addition law `Spec.Ed25519.add` and the doubling `Spec.Ed25519.double` — polynomial identities —
+by induction over the double-and-add loop).  No group law (associativity, inverses, order of `B`) is used. -/
+theorem scalarMul_B_onCurve (k : Nat) : OnCurve (Spec.Ed25519.scalarMul k Spec.Ed25519.B) :=
+  Proofs.CurveEdwards.scalarMul_B_onCurve k
+
+/-- … and its projective `Z` is invertible: the addition law is complete on the curve, because `d` is not a
+square modulo p (Euler's criterion, one modular exponentiation evaluated in the kernel) while `−1` is -/
+theorem scalarMul_B_Z (k : Nat) : (Spec.Ed25519.scalarMul k Spec.Ed25519.B).Z % Spec.X25519.p ≠ 0 :=
+  Proofs.CurveEdwards.scalarMul_B_Z k
+
+/-- … and its compressed form decompresses (the square-root step of RFC 8032 §5.1.3 finds a root whenever one
+exists, and `x = X/Z` is one) -/
+theorem scalarMul_B_decodes (k : Nat) :
+    Spec.Ed25519.decodePointLax (Spec.Ed25519.encodePoint (Spec.Ed25519.scalarMul k Spec.Ed25519.B)) ≠ none :=
+  Proofs.CurveEdwards.scalarMul_B_decodes k
+
+/-- cross-check of the three theorems against kernel evaluation on one instance, independent of their proofs -/
+example :
+    OnCurve (Spec.Ed25519.scalarMul 5 Spec.Ed25519.B) ∧
+    (Spec.Ed25519.scalarMul 5 Spec.Ed25519.B).Z % Spec.X25519.p ≠ 0 ∧
+    Spec.Ed25519.decodePointLax (Spec.Ed25519.encodePoint (Spec.Ed25519.scalarMul 5 Spec.Ed25519.B)) ≠ none := by
+  decide +kernel
+
+/-- the curve equation is not vacuous: a point off the curve -/
+example : ¬ OnCurve { X := 1, Y := 1, Z := 1, T := 1 } := by decide +kernel
+
+/-- **`converted_pair_consistent_code` for EVERY 32-byte seed and every hash**: both of its hypotheses are
+discharged by the three theorems above — NO curve hypothesis remains.
+`pk_to_curve25519(pk) = (TABLE · (clamp(sk') mod L)).to_montgomery()` with `sk' = sk_to_curve25519(sk)`. -/
+theorem converted_pair_consistent_code_all (H : Bytes → Bytes) (seed : Bytes) (hseed : seed.length = 32) :
+    Model.Sign.pkToCurve (Model.Sign.seedKeypair H seed).1 =
+      .ok (C05.scalarmultBaseEdwards
+        (Model.Sign.skToCurve H (Model.Sign.seedKeypair H seed).2)) :=
+  converted_pair_consistent_code H seed hseed (scalarMul_B_decodes _) (scalarMul_B_Z _)
+
+/-- **`MapCommutes` is not an independent assumption**: it follows from `C05.BaseEdwardsOK` for every clamped
+32-byte scalar.  (`pkToCurve ∘ compress = to_montgomery` on `[s mod L]B` is PROVED — `pkToCurve_compress` with its
+hypotheses discharged by `scalarMul_B_decodes`, `scalarMul_B_Z` —, and `BaseEdwardsOK` identifies that
+`to_montgomery` with the ladder.) -/
+theorem mapCommutes_of_base (hB : C05.BaseEdwardsOK) (s : Bytes) (hs : s.length = 32) (hc : clamp s = s) :
+    MapCommutes specPrims s := by
+  unfold MapCommutes
+  rw [pkToCurve_compress _ (scalarMul_B_decodes _) (scalarMul_B_Z _)]
+  have h := hB s hs
+  unfold C05.scalarmultBaseEdwards at h
+  rw [hc] at h
+  have e : specPrims.ladder s specPrims.base = Spec.X25519.x25519Base s := by
+    have := C05.scalarmultBase_eq s hs
+    unfold scalarmultBase at this
+    rw [hc] at this
+    exact this
+  rw [e]
+  exact congrArg Outcome.ok h
+
+/-- hence `converted_pair_consistent` under the single named hypothesis `C05.BaseEdwardsOK` -/
+theorem converted_pair_consistent_of_base (hB : C05.BaseEdwardsOK) (H : Bytes → Bytes) (seed : Bytes)
+    (hseed : seed.length = 32) (hH : 32 ≤ (H seed).length) :
+    Model.Sign.pkToCurve (Model.Sign.seedKeypair H seed).1 =
+      .ok (scalarmultBase specPrims (Model.Sign.skToCurve H (Model.Sign.seedKeypair H seed).2)) :=
+  converted_pair_consistent specPrims H seed hseed hH (fun s hs hc => mapCommutes_of_base hB s hs hc)
+
+/-- non-vacuity of `mapCommutes_of_base`'s side conditions: a clamped 32-byte scalar -/
+example : (clamp (zeros 32)).length = 32 ∧ clamp (clamp (zeros 32)) = clamp (zeros 32) := by decide
+
 /-- non-vacuity witness for `converted_pair_consistent_code`: both hypotheses hold for the RFC 8032
 TEST 1 seed with the real SHA-512 (kernel evaluation) -/
 example :
@@ -306,6 +439,10 @@ theorem pkToCurve_err_iff (pk : Bytes) :
     Model.Sign.pkToCurve pk = .err ↔ Spec.Ed25519.decodePointLax pk = none :=
   Proofs.KeyFormsExtra.pkToCurve_err_iff pk
 
+/-- Corollary of totalisation: the definition `Model.Sign.pkToCurve` has no panic branch in reach (`match` on
+`decodePointLax`: `.err` or `.ok`).  No `…Raw` / `_cases` form exists — the Rust takes `&[u8; 32]`, there is no
+variable-length view; the statements that carry content are `pkToCurve_err_iff` (when it fails) and
+`pkToCurve_value` / `pkToCurve_compress` (what it returns). -/
 theorem pkToCurve_never_panics (pk : Bytes) : Model.Sign.pkToCurve pk ≠ .panic :=
   Proofs.KeyFormsExtra.pkToCurve_never_panics pk
 
@@ -397,7 +534,8 @@ theorem scalarMul_mod_L_repr_ne :
 
 open Model.KeyForms in
 /-- `KeyPair::from_secret_key`: the public key is the base-point multiple of the given secret key;
-the secret key is stored AS GIVEN (not clamped) -/
+the secret key is stored AS GIVEN (not clamped).
+Definitional (documents the model): `rfl` unfolding of `Model.KeyForms.fromSecretKey`. -/
 theorem fromSecretKey_unfold (P : Prims) (sk : Bytes) :
     fromSecretKey P sk = (scalarmultBase P sk, sk) := rfl
 
@@ -417,7 +555,8 @@ theorem fromSecretKey_spec (sk : Bytes) (h : sk.length = 32) :
 
 open Model.KeyForms in
 /-- a key pair from `from_secret_key` and one from `crypto_box_seed_keypair` are built the same
-way from their secret keys -/
+way from their secret keys.
+Definitional (documents the model): `rfl`, both definitions are `(scalarmultBase P sk, sk)`. -/
 theorem boxSeedKeypair_eq_fromSecretKey (P : Prims) (seed : Bytes) :
     boxSeedKeypair P seed = fromSecretKey P ((P.sha512 seed).take 32) := rfl
 
